@@ -43,6 +43,7 @@ func init() {
 			{ID: "C11-R17", Title: "configuration errors are not discarded", Floor: 1, Run: configurationErrorsAreNotDiscarded},
 			{ID: "C11-R18", Title: "loaded code entries are fresh (shared with C07)", Floor: 2, Run: loadedCodeEntriesAreFresh},
 			{ID: "C11-R19", Title: "supplied globals replace the old ones", Floor: 1, Run: suppliedGlobalsReplaceTheOldOnes},
+			{ID: "C11-R20", Title: "member names are last segments", Floor: 1, Run: memberNamesAreLastSegments},
 		},
 	})
 }
